@@ -3,9 +3,10 @@
    dimensions, E any exponent type with a homomorphism `ten` into K: no axioms.
    value ts S s = sum over the labels S of the product of the tensors ts, every
    other label (the outer labels) read from the assignment s  (Base/TN.v). *)
-From Coq Require Import ZArith Arith List Bool Ring Permutation.
+From Coq Require Import ZArith QArith Arith List Bool Ring Permutation.
 From QV Require Import Base.Sums Base.TN Base.TNExec C04.Model C04.Rules C04.Proofs C04.Finders.
 Import ListNotations.
+Close Scope Q_scope.
 
 Section C04.
   Variable K : Type.
@@ -140,6 +141,13 @@ Section C04.
     value (map (rename K x x') ts) (R ++ [x']) s = value ts (R ++ [x]) s.
   Proof. exact (rename_sound K k0 k1 kadd kmul dim). Qed.
 
+  (* gauged networks ((tn, gauges) = tn with the gauge vector inserted on its bond): squeezing a size-1
+     gauged bond (tensor_fuse_squeeze with gauges) is sound iff the scalar is absorbed once: r*r = g[0] *)
+  Theorem C04_squeeze_gauged_bond_sound : forall a b others k g r R s, dim k = 1 -> kmul r r = g 0 ->
+    value (gauge_vec K k g :: a :: b :: others) (R ++ [k]) s
+    = value (scale K kmul r (sel K k 0 a) :: scale K kmul r (sel K k 0 b) :: map (sel K k 0) others) R s.
+  Proof. exact (squeeze_gauged_bond_sound K k0 k1 kadd kmul ksub kopp Kring dim). Qed.
+
   (* the order of summation is irrelevant (any permutation) *)
   Theorem C04_value_summed_perm : forall ts S S' s, Forall wf ts -> Permutation S S' -> value ts S s = value ts S' s.
   Proof. exact (value_summed_perm K k0 k1 kadd kmul ksub kopp Kring dim). Qed.
@@ -178,6 +186,7 @@ Print Assumptions C04_column_reduce_sound.
 Print Assumptions C04_flip_sound.
 Print Assumptions C04_copy_insert_sound.
 Print Assumptions C04_rename_bond_sound.
+Print Assumptions C04_squeeze_gauged_bond_sound.
 Print Assumptions C04_value_summed_perm.
 Print Assumptions C04_rule_sound.
 Print Assumptions C04_rewrite_star_sound.
@@ -203,6 +212,21 @@ Theorem C04_find_columns_spec : forall (A : Type) (nz : A -> bool) (a0 : A) shap
   /\ (find_columns A nz a0 shape data = None <-> forall q, ~ is_col A nz a0 shape data q).
 Proof. exact find_columns_spec. Qed.
 Print Assumptions C04_find_columns_spec.
+
+(* explicit tolerance (`abs(val) > atol`, exact rational data, complex entries as (re, im)): the zero test of the
+   finder instances find_*_Q is exactly |x|^2 <= atol^2, and what find_columns returns has every entry off the
+   column within atol - not merely within sqrt(atol) *)
+Theorem C04_finder_tolerance_predicate : forall atol x,
+  nzQ atol x = false <-> (fst x * fst x + snd x * snd x <= atol * atol)%Q.
+Proof. exact nzQ_false. Qed.
+Print Assumptions C04_finder_tolerance_predicate.
+
+Theorem C04_find_columns_within_tolerance : forall atol shape data ax c,
+  find_columns_Q atol shape data = Some (ax, c) ->
+  forall k, k < Model.size shape -> nth ax (Model.unravel shape k) 0 <> c ->
+  let x := nth k data (0, 0)%Q in (fst x * fst x + snd x * snd x <= atol * atol)%Q.
+Proof. exact find_columns_tolerance. Qed.
+Print Assumptions C04_find_columns_within_tolerance.
 
 (* finder answer + rewrite theorem on array tensors (the executable Z[i] instance):
    diagonal_reduce / column_reduce driven by the finders are sound *)
